@@ -248,7 +248,7 @@ def run(check, mirror, tier):
             dv.assume_axioms(ex, st)
             n = ex.fresh_int(st, "usize", "len", constrain=False)
             ex.assume(st, z3.And(n.e >= 0, n.e <= LN))
-            items = [U.fresh(ex, st, 0, "x%d" % k, kinds=["Number", "Null"] if k == LN - 1 else ["Number"]) for k in range(LN)]
+            items = [U.fresh(ex, st, 0, "x%d" % k, kinds=["Number", "Null"]) for k in range(LN)]
             return core_name(crate, fn), [Ref(ex.new_cell(st, VecV(n.e, items, "Value")))], {"list": items, "list_len": n.e}
 
         def post(ex, o, v):
@@ -391,7 +391,8 @@ EXTRA_MODELS = [
 
 def replay_expr(rb, expr, i, what):
     _, out, _ = replay_call(rb, ["feel", expr])
-    bad = out.strip() in ("VALUE Infinity", "VALUE -Infinity", "VALUE NaN")
+    # a panic is no number and no null either (the evaluation of a numeric built-in must return one of the two)
+    bad = out.strip() in ("VALUE Infinity", "VALUE -Infinity", "VALUE NaN") or out.startswith("PANIC")
     note = ""
     num = lambda k: dv.frac_of(i[k]) if i.get(k, {}).get("kind") == "Number" else None
     a, b = num("a"), num("b")
